@@ -121,29 +121,38 @@ Proof.
   rewrite rblock_nil, app_nil_r. reflexivity.
 Qed.
 
+(* every lemma about the transpiler holds for every list [vol] of names written by function bodies *)
+Section WithVol.
+Context {vol : list ident}.
+Notation tstep := (ConstEnv.tstep vol).
+Notation tblock := (ConstEnv.tblock vol).
+
 Lemma tstep_if a b te st : tstep (SIf a b) te st =
   match tblock a te st with
-  | Some (te1, st1, r1, f1) =>
-      match tblock b te st1 with
-      | Some (te2, st2, r2, f2) =>
-          Some (promote (promote te te1 []) te2 [], st2, [SIf r1 r2],
-                f1 && f2 && disjoint_known (writes (SIf a b)) te && no_safe (writes (SIf a b)))
+  | Some (te1, _, r1, f1) =>
+      match tblock b te st with
+      | Some (te2, _, r2, f2) =>
+          Some (forget (writes (SIf a b)) (promote (promote te te1 []) te2 []), st, [SIf r1 r2],
+                f1 && f2 && no_safe (writes (SIf a b)))
       | None => None end
   | None => None end.
 Proof. reflexivity. Qed.
 Lemma tstep_while a te st : tstep (SWhile a) te st =
-  match tblock a te st with
-  | Some (te1, st1, r1, f1) =>
-      Some (promote te te1 [], st1, [SWhile r1], f1 && disjoint_known (writes (SWhile a)) te && no_safe (writes (SWhile a)))
+  match tblock a (forget (writes (SWhile a)) te) st with
+  | Some (te1, _, r1, f1) =>
+      Some (promote (forget (writes (SWhile a)) te) te1 [], st, [SWhile r1], f1 && no_safe (writes (SWhile a)))
   | None => None end.
 Proof. reflexivity. Qed.
 Lemma tstep_for x a te st : tstep (SFor x a) te st =
-  match tblock a ((x, TMark) :: te) st with
-  | Some (te1, st1, r1, f1) =>
-      Some (promote te te1 [x], st1, [SFor x r1], f1 && disjoint_known (writes (SFor x a)) te && no_safe (writes (SFor x a)))
+  match tblock a ((x, TMark) :: forget (writes (SFor x a)) te) st with
+  | Some (te1, _, r1, f1) =>
+      Some (promote (forget (writes (SFor x a)) te) te1 [x], st, [SFor x r1], f1 && no_safe (writes (SFor x a)))
   | None => None end.
 Proof. reflexivity. Qed.
-Lemma tstep_simple s te st : simple s -> tstep s te st = tsimple s te st.
+Lemma tstep_simple s te st : simple s ->
+  tstep s te st = match tsimple s te st with
+                  | Some (te1, st1, r1, f1) => Some (after_assign vol s te1, st1, r1, f1)
+                  | None => None end.
 Proof. destruct s; cbn; intro H; try contradiction; reflexivity. Qed.
 Lemma tblock_cons s r te st : tblock (s :: r) te st =
   match tstep s te st with
@@ -151,6 +160,7 @@ Lemma tblock_cons s r te st : tblock (s :: r) te st =
       match tblock r te1 st1 with Some (te2, st2, r2, f2) => Some (te2, st2, r1 ++ r2, f1 && f2) | None => None end
   | None => None end.
 Proof. reflexivity. Qed.
+End WithVol.
 Lemma writes_if a b : writes (SIf a b) = writes_block a ++ writes_block b. Proof. reflexivity. Qed.
 Lemma writes_while a : writes (SWhile a) = writes_block a. Proof. reflexivity. Qed.
 Lemma writes_for x a : writes (SFor x a) = x :: writes_block a. Proof. reflexivity. Qed.
@@ -333,6 +343,58 @@ Definition tframe_concl (ws : list ident) (te : tenv) (st : store) (te' : tenv) 
   (forall x l, tlookup x te = Some (TRef l) -> ~ In x ws -> nth l st' [] = nth l st []) /\
   (forall x, ~ In x ws -> tlookup x te' = tlookup x te) /\
   (forall y, In y (map fst te') -> In y (map fst te) \/ In y ws).
+(* forgetting *)
+Lemma mark_all_cons a ws te : mark_all (a :: ws) te = (a, TMark) :: mark_all ws te.
+Proof. reflexivity. Qed.
+Lemma mark_all_in ws te x : In x ws -> tlookup x (mark_all ws te) = Some TMark.
+Proof.
+  induction ws as [|a ws IH]; [intros []|]. intro H. rewrite mark_all_cons.
+  destruct (teq_dec x a) as [->|N]; [apply tl_eq|]. rewrite tl_ne by exact N. apply IH. destruct H as [H|H]; [congruence|exact H].
+Qed.
+Lemma mark_all_notin ws te x : ~ In x ws -> tlookup x (mark_all ws te) = tlookup x te.
+Proof.
+  induction ws as [|a ws IH]; [reflexivity|]. intro H. rewrite mark_all_cons.
+  rewrite tl_ne; [apply IH; intro; apply H; right; assumption|]. intro; subst; apply H; left; reflexivity.
+Qed.
+Lemma mark_all_names ws te y : In y (map fst (mark_all ws te)) -> In y ws \/ In y (map fst te).
+Proof.
+  induction ws as [|a ws IH]; [tauto|]. rewrite mark_all_cons. cbn. intros [H|H]; [tauto|]. destruct (IH H); tauto.
+Qed.
+Lemma bound_in x te : bound x te = true -> In x (map fst te).
+Proof. unfold bound. destruct (tlookup x te) eqn:E; [intros _; eapply tl_in; exact E|discriminate]. Qed.
+Lemma forget_in ws te x : In x ws -> tlookup x (forget ws te) = Some TMark \/ tlookup x (forget ws te) = None.
+Proof.
+  intro H. unfold forget. destruct (bound x te) eqn:B.
+  - left. apply mark_all_in. apply filter_In. split; assumption.
+  - right. rewrite mark_all_notin; [unfold bound in B; destruct (tlookup x te); [discriminate|reflexivity]|].
+    intro I. apply filter_In in I. destruct I as [_ I]. congruence.
+Qed.
+Lemma forget_notin ws te x : ~ In x ws -> tlookup x (forget ws te) = tlookup x te.
+Proof. intro H. unfold forget. apply mark_all_notin. intro I. apply filter_In in I. tauto. Qed.
+Lemma forget_lookup ws te x : tlookup x (forget ws te) = tlookup x te \/ tlookup x (forget ws te) = Some TMark.
+Proof.
+  unfold forget. destruct (in_dec teq_dec x (filter (fun x => bound x te) ws)) as [I|N].
+  - right. apply mark_all_in. exact I.
+  - left. apply mark_all_notin. exact N.
+Qed.
+Lemma forget_names ws te y : In y (map fst (forget ws te)) -> In y (map fst te).
+Proof.
+  unfold forget. intro H. destruct (mark_all_names _ _ _ H) as [I|I]; [|exact I].
+  apply filter_In in I. destruct I as [_ B]. apply bound_in. exact B.
+Qed.
+
+Lemma flags4 a b c d : a && b && c && d = true -> a = true /\ b = true /\ c = true /\ d = true.
+Proof. destruct a, b, c, d; cbn; intuition congruence. Qed.
+Ltac inj H := injection H; clear H; intros; subst.
+Ltac wf_tval_contra R W Lx Lr x :=
+  exfalso; specialize (R x); rewrite Lx in R; rewrite Lr in R; inversion R; subst;
+  destruct W as (_ & _ & W3); exact (W3 _ _ Lx).
+
+Section WithVol2.
+Context {vol : list ident}.
+Notation tstep := (ConstEnv.tstep vol).
+Notation tblock := (ConstEnv.tblock vol).
+
 Definition tframe_stmt (s : stmt) : Prop := forall te st te' st' res f,
   tstep s te st = Some (te', st', res, f) -> wf te st -> tframe_concl (writes s) te st te' st'.
 Definition tframe_blk (b : list stmt) : Prop := forall te st te' st' res f,
@@ -383,9 +445,10 @@ Proof.
   - cbn. intros y [H|H]; [right; left; exact H|left; exact H].
 Qed.
 
-Lemma tframe_simple s : simple s -> tframe_stmt s.
+Lemma tframe_tsimple s : simple s -> forall te st te' st' res f,
+  tsimple s te st = Some (te', st', res, f) -> wf te st -> tframe_concl (writes s) te st te' st'.
 Proof.
-  intros Hs te st te' st' res f H W. rewrite tstep_simple in H by exact Hs.
+  intros Hs te st te' st' res f H W.
   destruct s as [x e|x e|x e|o|v| | | |x op e]; try contradiction; cbn [tsimple] in H.
   - (* assign *)
     destruct (eval_const (view st te) e) as [v|k|] eqn:E; [| |discriminate].
@@ -397,14 +460,14 @@ Proof.
       * cbn. intros y [Hy|Hy]; [right; left; exact Hy|left; exact Hy].
     + inversion H; subst. apply tframe_cons_any; [apply wf_cons_mark; exact W|exact W].
   - (* append *)
+    assert (SET : forall l v, tlookup x te = Some (TRef l) -> tframe_concl [x] te st te (set_nth l v st)).
+    { intros l v Lx. split; [apply wf_set_nth; exact W|]. split; [rewrite set_nth_length; lia|]. split; [|split; [reflexivity|tauto]].
+      intros y l0 Hy Ny. apply set_nth_other. intro; subst l0. apply Ny. left.
+      destruct W as (_ & W2 & _). symmetry. eapply W2; eassumption. }
     destruct (eval_const (view st te) e) as [v|k|] eqn:E; [| |discriminate];
       (destruct (tlookup x te) as [[v0|l|]|] eqn:Lx; inversion H; subst; clear H;
-       [apply tframe_refl; exact W
-       | split; [apply wf_set_nth; exact W|]; split; [rewrite set_nth_length; lia|]; split; [|split; [reflexivity|tauto]];
-         intros y l0 Hy Ny; apply set_nth_other; intro; subst l0; apply Ny; left;
-         destruct W as (_ & W2 & _); symmetry; eapply W2; eassumption
-       | apply tframe_cons_any; [apply wf_cons_mark; exact W|exact W]
-       | apply tframe_cons_any; [apply wf_cons_mark; exact W|exact W] ]).
+       first [ apply tframe_refl; exact W | apply SET; reflexivity
+             | apply tframe_cons_any; [apply wf_cons_mark; exact W|exact W] ]).
   - (* remove *)
     assert (SET : forall l v, tlookup x te = Some (TRef l) -> tframe_concl [x] te st te (set_nth l v st)).
     { intros l v Lx. split; [apply wf_set_nth; exact W|]. split; [rewrite set_nth_length; lia|]. split; [|split; [reflexivity|tauto]].
@@ -413,7 +476,8 @@ Proof.
     destruct (eval_const (view st te) e) as [v|k|] eqn:E; [| |discriminate];
       (destruct (tlookup x te) as [[v0|l|]|] eqn:Lx;
        [inversion H; subst; apply tframe_refl; exact W
-       | try (destruct (remove_first v (nth l st [])) eqn:R); inversion H; subst; first [apply SET; reflexivity | apply tframe_refl; exact W]
+       | try (destruct (remove_first v (nth l st [])) eqn:R); inversion H; subst;
+         first [apply SET; reflexivity | apply tframe_refl; exact W | apply tframe_cons_any; [apply wf_cons_mark; exact W|exact W]]
        | inversion H; subst; apply tframe_cons_any; [apply wf_cons_mark; exact W|exact W]
        | inversion H; subst; apply tframe_cons_any; [apply wf_cons_mark; exact W|exact W] ]).
   - (* obs *)
@@ -479,40 +543,71 @@ Proof.
   destruct (bound z parent || tmem z skip); [exact IH|right; exact IH].
 Qed.
 
+Lemma tframe_forget ws' ws te st te1 st1 :
+  tframe_concl ws te st te1 st1 -> (forall x, In x ws' -> In x ws) -> tframe_concl ws te st (forget ws' te1) st1.
+Proof.
+  intros (A & B & C & D & E) S. split; [|split; [exact B|split; [exact C|split]]].
+  - destruct A as (W1 & W2 & W3). split; [|split].
+    + intros x l H. destruct (forget_lookup ws' te1 x) as [Q|Q]; rewrite Q in H; [eauto|discriminate].
+    + intros x y l Hx Hy.
+      destruct (forget_lookup ws' te1 x) as [Q|Q]; rewrite Q in Hx; [|discriminate].
+      destruct (forget_lookup ws' te1 y) as [Q'|Q']; rewrite Q' in Hy; [|discriminate]. eauto.
+    + intros x l H. destruct (forget_lookup ws' te1 x) as [Q|Q]; rewrite Q in H; [exact (W3 _ _ H)|discriminate].
+  - intros x Nx. rewrite forget_notin; [apply D; exact Nx|]. intro I. apply Nx, S, I.
+  - intros y Hy. apply E. eapply forget_names. exact Hy.
+Qed.
+Lemma wf_forget ws te st : wf te st -> wf (forget ws te) st.
+Proof. intro W. apply (tframe_forget ws ws te st te st (tframe_refl ws te st W) (fun x I => I)). Qed.
+
+Lemma tframe_simple s : simple s -> tframe_stmt s.
+Proof.
+  intros Hs te st te' st' res f H W. rewrite tstep_simple in H by exact Hs.
+  destruct (tsimple s te st) as [[[[te1 st1] r1] f1]|] eqn:T; [|discriminate]. injection H as <- <- <- <-.
+  pose proof (tframe_tsimple s Hs _ _ _ _ _ _ T W) as F.
+  destruct s as [x e|x e|x e|o|v| | | |x op e]; try contradiction; try exact F.
+  cbn [after_assign]. destruct (tmem x vol); [|exact F].
+  eapply tframe_weaken; [|eapply tframe_seq; [exact F|apply tframe_cons_any; [apply wf_cons_mark; apply F|apply F]]].
+  cbn. intros y [Hy|[Hy|[]]]; left; exact Hy.
+Qed.
+
 Lemma tframe_all : forall s, tframe_stmt s.
 Proof.
   apply stmt_ind'; try (intros; apply tframe_simple; exact I).
   - (* if *)
-    intros a b Fa Fb te st te' st' res f H W. rewrite tstep_if in H. rewrite writes_if.
+    intros a b Fa Fb te st te' st' res f H W. rewrite tstep_if in H.
     destruct (tblock a te st) as [[[[te1 st1] r1] f1]|] eqn:E1; [|discriminate].
-    destruct (tblock b te st1) as [[[[te2 st2] r2] f2]|] eqn:E2; [|discriminate].
-    injection H as <- <- <- <-.
+    destruct (tblock b te st) as [[[[te2 st2] r2] f2]|] eqn:E2; [|discriminate].
+    injection H as <- <- <- <-. rewrite writes_if.
     destruct (tframe_block a Fa _ _ _ _ _ _ E1 W) as (A1 & B1 & C1 & D1 & G1).
-    assert (W1 : wf te st1) by (eapply wf_mono; eassumption).
-    destruct (tframe_block b Fb _ _ _ _ _ _ E2 W1) as (A2 & B2 & C2 & D2 & G2).
+    destruct (tframe_block b Fb _ _ _ _ _ _ E2 W) as (A2 & B2 & C2 & D2 & G2).
     set (ws := writes_block a ++ writes_block b).
-    assert (S1 : tframe_concl ws te st (promote te te1 []) st2).
-    { apply tframe_promote; [exact W|lia| |].
-      - intros x l Hx Nx. rewrite (C2 x l Hx), (C1 x l Hx); [reflexivity| |]; intro; apply Nx, in_or_app; tauto.
-      - intros y Hy. destruct (G1 y Hy); [tauto|right; apply in_or_app; tauto]. }
-    assert (S2 : tframe_concl ws (promote te te1 []) st2 (promote (promote te te1 []) te2 []) st2).
+    assert (S1 : tframe_concl ws te st (promote te te1 []) st).
+    { apply tframe_promote; [exact W|lia|reflexivity|].
+      intros y Hy. destruct (G1 y Hy); [tauto|right; apply in_or_app; tauto]. }
+    assert (S2 : tframe_concl ws (promote te te1 []) st (promote (promote te te1 []) te2 []) st).
     { apply tframe_promote; [apply S1|lia|reflexivity|].
       intros y Hy. destruct (G2 y Hy) as [G|G]; [left; rewrite promote_is; apply promote_names_keeps; exact G|right; apply in_or_app; tauto]. }
+    apply tframe_forget; [|tauto].
     eapply tframe_weaken; [|eapply tframe_seq; [exact S1|exact S2]].
     intros x Hx. apply in_app_or in Hx. tauto.
   - (* while *)
-    intros a Fa te st te' st' res f H W. rewrite tstep_while in H. rewrite writes_while.
-    destruct (tblock a te st) as [[[[te1 st1] r1] f1]|] eqn:E1; [|discriminate].
+    intros a Fa te st te' st' res f H W. rewrite tstep_while in H. rewrite writes_while in *.
+    set (te0 := forget (writes_block a) te) in *.
+    destruct (tblock a te0 st) as [[[[te1 st1] r1] f1]|] eqn:E1; [|discriminate].
     injection H as <- <- <- <-.
-    destruct (tframe_block a Fa _ _ _ _ _ _ E1 W) as (A1 & B1 & C1 & D1 & G1).
-    apply tframe_promote; assumption.
+    assert (F0 : tframe_concl (writes_block a) te st te0 st) by (apply tframe_forget; [apply tframe_refl; exact W|tauto]).
+    destruct (tframe_block a Fa _ _ _ _ _ _ E1 (proj1 F0)) as (A1 & B1 & C1 & D1 & G1).
+    eapply tframe_weaken; [|eapply tframe_seq; [exact F0|apply (tframe_promote (writes_block a) te0 st te1 st []); [apply F0|lia|reflexivity|exact G1]]].
+    intros x Hx. apply in_app_or in Hx. tauto.
   - (* for *)
-    intros x a Fa te st te' st' res f H W. rewrite tstep_for in H. rewrite writes_for.
-    destruct (tblock a ((x, TMark) :: te) st) as [[[[te1 st1] r1] f1]|] eqn:E1; [|discriminate].
+    intros x a Fa te st te' st' res f H W. rewrite tstep_for in H. rewrite writes_for in *.
+    set (te0 := forget (x :: writes_block a) te) in *.
+    destruct (tblock a ((x, TMark) :: te0) st) as [[[[te1 st1] r1] f1]|] eqn:E1; [|discriminate].
     injection H as <- <- <- <-.
-    destruct (tframe_block a Fa _ _ _ _ _ _ E1 (wf_cons_mark x _ _ W)) as (A1 & B1 & C1 & D1 & G1).
-    apply tframe_promote; [exact W|exact B1| |].
-    + intros y l Hy Ny. apply (C1 y l); [rewrite tl_ne; [exact Hy|intro; subst; apply Ny; left; reflexivity]|intro; apply Ny; right; assumption].
+    assert (F0 : tframe_concl (x :: writes_block a) te st te0 st) by (apply tframe_forget; [apply tframe_refl; exact W|tauto]).
+    destruct (tframe_block a Fa _ _ _ _ _ _ E1 (wf_cons_mark x _ _ (proj1 F0))) as (A1 & B1 & C1 & D1 & G1).
+    eapply tframe_weaken; [|eapply tframe_seq; [exact F0|apply (tframe_promote (x :: writes_block a) te0 st te1 st [x]); [apply F0|lia|reflexivity|]]].
+    + intros y Hy. apply in_app_or in Hy. tauto.
     + intros y Hy. destruct (G1 y Hy) as [G|G]; [cbn in G; destruct G as [G|G]; [right; left; exact G|left; exact G]|right; right; exact G].
 Qed.
 Lemma tframe_blocks b : tframe_blk b.
@@ -539,23 +634,25 @@ Proof.
   - rewrite tl_ne by exact N. specialize (R y). destruct (tlookup y te) as [[v0|l0|]|] eqn:E; auto.
     rewrite set_nth_other; [exact R|]. intro; subst l0. apply N. eapply W2; eassumption.
 Qed.
-Lemma disjoint_known_notin ws te y : disjoint_known ws te = true -> known y te = true -> ~ In y ws.
-Proof.
-  intros D K H. unfold disjoint_known in D. rewrite forallb_forall in D. specialize (D _ H). rewrite K in D. discriminate.
-Qed.
-Lemma ragrees_after_block te st rho ws te' st' rho' :
-  ragrees te st rho -> disjoint_known ws te = true ->
+Lemma ragrees_frame ws te st rho te' rho' :
+  ragrees te st rho ->
   (forall x, ~ In x ws -> lookup x rho' = lookup x rho) ->
-  (forall x l, tlookup x te = Some (TRef l) -> ~ In x ws -> nth l st' [] = nth l st []) ->
-  (forall x, tlookup x te' = tlookup x te \/ tlookup x te' = Some TMark \/ tlookup x te' = None) ->
-  ragrees te' st' rho'.
+  (forall x, In x ws -> tlookup x te' = Some TMark \/ tlookup x te' = None) ->
+  (forall x, ~ In x ws -> tlookup x te' = tlookup x te \/ tlookup x te' = Some TMark \/ tlookup x te' = None) ->
+  ragrees te' st rho'.
 Proof.
-  intros R DK F C L y. destruct (L y) as [E|[E|E]]; rewrite E; auto.
-  specialize (R y). destruct (tlookup y te) as [[v|l|]|] eqn:Ey; auto.
-  - assert (N : ~ In y ws) by (eapply disjoint_known_notin; [exact DK|unfold known; rewrite Ey; reflexivity]).
-    rewrite F by exact N. exact R.
-  - assert (N : ~ In y ws) by (eapply disjoint_known_notin; [exact DK|unfold known; rewrite Ey; reflexivity]).
-    rewrite F by exact N. rewrite (C y l Ey N). exact R.
+  intros R F M L y. destruct (in_dec teq_dec y ws) as [I|N].
+  - destruct (M y I) as [E|E]; rewrite E; exact Logic.I.
+  - destruct (L y N) as [E|[E|E]]; rewrite E; auto.
+    specialize (R y). rewrite (F y N). exact R.
+Qed.
+Lemma ragrees_forget ws te st rho : ragrees te st rho -> ragrees (forget ws te) st rho.
+Proof.
+  intros R y. destruct (forget_lookup ws te y) as [E|E]; rewrite E; [apply R|exact I].
+Qed.
+Lemma ragrees_cons_mark x te st rho : ragrees te st rho -> ragrees ((x, TMark) :: te) st rho.
+Proof.
+  intros R y. destruct (teq_dec y x) as [->|N]; [rewrite tl_eq; exact I|]. rewrite tl_ne by exact N. apply R.
 Qed.
 Lemma promote_lookup3 parent child skip x :
   tlookup x (promote parent child skip) = tlookup x parent \/ tlookup x (promote parent child skip) = Some TMark \/
@@ -592,15 +689,13 @@ Qed.
 Lemma peval_name rho x : peval rho (EName x) = match lookup x rho with Some v => Ok v | None => Err NameErr end.
 Proof. reflexivity. Qed.
 
-Ltac inj H := injection H; clear H; intros; subst.
-Ltac wf_tval_contra R W Lx Lr x :=
-  exfalso; specialize (R x); rewrite Lx in R; rewrite Lr in R; inversion R; subst;
-  destruct W as (_ & _ & W3); exact (W3 _ _ Lx).
 
-Lemma sim_simple s : simple s -> sim_stmt s.
+Lemma sim_tsimple s : simple s -> forall te st te' st' res orc rho rho' out orc',
+  tsimple s te st = Some (te', st', res, true) -> wf te st -> ragrees te st rho -> unshadowed rho ->
+  rstep s orc rho = Some (rho', out, orc') -> sim_concl res orc rho rho' out orc' te' st'.
 Proof.
   intros Hs te st te' st' res orc rho rho' out orc' H W R U Hr.
-  rewrite tstep_simple in H by exact Hs. rewrite rstep_simple in Hr by exact Hs.
+  rewrite rstep_simple in Hr by exact Hs.
   pose proof (ragrees_agrees _ _ _ R) as AG.
   destruct s as [x e|x e|x e|o|v| | | |x op e]; try contradiction; cbn [tsimple] in H; cbn [rsimple] in Hr.
   - (* assign *)
@@ -634,7 +729,7 @@ Proof.
     destruct (eval_const (view st te) e) as [v|k|] eqn:E; [| |discriminate];
       destruct (tlookup x te) as [[v0|l|]|] eqn:Lx.
     + wf_tval_contra R W Lx Lr x.
-    + assert (g = true) as -> by (injection H; intros HF _ _ _; rewrite andb_true_r in HF; exact HF).
+    + assert (g = true) as -> by (injection H; intros HF _ _ _; exact HF).
       inj H. symmetry in Hg.
       rewrite (eval_const_sound _ _ _ _ AG U Hg E) in P. inj P.
       specialize (R x) as Rx. rewrite Lx, Lr in Rx. inj Rx.
@@ -642,7 +737,7 @@ Proof.
     + inj H. split; [exact RB|split; [eapply ragrees_bind; [exact R|intros; reflexivity|exact I]|eapply unshadowed_rebind; eassumption]].
     + inj H. split; [exact RB|split; [eapply ragrees_bind; [exact R|intros; reflexivity|exact I]|eapply unshadowed_rebind; eassumption]].
     + wf_tval_contra R W Lx Lr x.
-    + exfalso. injection H; intros HF _ _ _. rewrite andb_false_r in HF. discriminate.
+    + inj H. split; [exact RB|split; [eapply ragrees_bind; [exact R|intros; reflexivity|exact I]|eapply unshadowed_rebind; eassumption]].
     + inj H. split; [exact RB|split; [eapply ragrees_bind; [exact R|intros; reflexivity|exact I]|eapply unshadowed_rebind; eassumption]].
     + inj H. split; [exact RB|split; [eapply ragrees_bind; [exact R|intros; reflexivity|exact I]|eapply unshadowed_rebind; eassumption]].
   - (* remove *)
@@ -665,7 +760,7 @@ Proof.
     + inj H. split; [exact RB|split; [eapply ragrees_bind; [exact R|intros; reflexivity|exact I]|eapply unshadowed_rebind; eassumption]].
     + inj H. split; [exact RB|split; [eapply ragrees_bind; [exact R|intros; reflexivity|exact I]|eapply unshadowed_rebind; eassumption]].
     + wf_tval_contra R W Lx Lr x.
-    + exfalso. injection H; intros; discriminate.
+    + inj H. split; [exact RB|split; [eapply ragrees_bind; [exact R|intros; reflexivity|exact I]|eapply unshadowed_rebind; eassumption]].
     + inj H. split; [exact RB|split; [eapply ragrees_bind; [exact R|intros; reflexivity|exact I]|eapply unshadowed_rebind; eassumption]].
     + inj H. split; [exact RB|split; [eapply ragrees_bind; [exact R|intros; reflexivity|exact I]|eapply unshadowed_rebind; eassumption]].
   - (* obs *)
@@ -704,48 +799,58 @@ Proof.
     rewrite rblock_single, rstep_simple by exact I. cbn [rsimple]. rewrite P. reflexivity.
 Qed.
 
-Lemma flags4 a b c d : a && b && c && d = true -> a = true /\ b = true /\ c = true /\ d = true.
-Proof. destruct a, b, c, d; cbn; intuition congruence. Qed.
+Lemma sim_simple s : simple s -> sim_stmt s.
+Proof.
+  intros Hs te st te' st' res orc rho rho' out orc' H W R U Hr.
+  rewrite tstep_simple in H by exact Hs.
+  destruct (tsimple s te st) as [[[[te1 st1] r1] f1]|] eqn:T; [|discriminate]. injection H as <- <- <- ->.
+  destruct (sim_tsimple s Hs _ _ _ _ _ _ _ _ _ _ T W R U Hr) as (S1 & RA & U1).
+  split; [exact S1|split; [|exact U1]].
+  destruct s as [x e|x e|x e|o|v| | | |x op e]; try contradiction; try exact RA.
+  cbn [after_assign]. destruct (tmem x vol); [apply ragrees_cons_mark|]; exact RA.
+Qed.
+
 Lemma flags3 a c d : a && c && d = true -> a = true /\ c = true /\ d = true.
 Proof. destruct a, c, d; cbn; intuition congruence. Qed.
-Lemma disjoint_known_app ws1 ws2 te : disjoint_known (ws1 ++ ws2) te = true ->
-  disjoint_known ws1 te = true /\ disjoint_known ws2 te = true.
-Proof. unfold disjoint_known. rewrite forallb_app. apply andb_true_iff. Qed.
 
-Lemma witer_sim a te st te1 st1 r1 :
-  sim_blk a -> tblock a te st = Some (te1, st1, r1, true) -> wf te st -> disjoint_known (writes_block a) te = true ->
-  forall k orc rho rho' out orc', ragrees te st rho -> unshadowed rho ->
+(* the loop invariant: the names the body writes are unknown in [te0], so whatever the passes do to them [te0] stays right *)
+Lemma witer_sim a te0 st te1 st1 r1 ws :
+  sim_blk a -> tblock a te0 st = Some (te1, st1, r1, true) -> wf te0 st ->
+  (forall x, In x (writes_block a) -> In x ws) ->
+  (forall x, In x ws -> tlookup x te0 = Some TMark \/ tlookup x te0 = None) ->
+  forall k orc rho rho' out orc', ragrees te0 st rho -> unshadowed rho ->
     witer a k orc rho = Some (rho', out, orc') -> witer r1 k orc rho = Some (rho', out, orc') /\ unshadowed rho'.
 Proof.
-  intros Sa E W DK. induction k as [|k IH]; intros orc rho rho' out orc' R U H; cbn in H |- *.
+  intros Sa E W Sub M. induction k as [|k IH]; intros orc rho rho' out orc' R U H; cbn in H |- *.
   - inversion H; subst. split; [reflexivity|exact U].
   - destruct (rblock a orc rho) as [[[rho1 o1] orc1]|] eqn:R1; [|discriminate].
     destruct (witer a k orc1 rho1) as [[[rho2 o2] orc2]|] eqn:R2; [|discriminate].
     injection H as <- <- <-.
     destruct (Sa _ _ _ _ _ _ _ _ _ _ E W R U R1) as (S1 & _ & U1).
-    assert (RA1 : ragrees te st rho1).
-    { eapply ragrees_after_block; [exact R|exact DK| |reflexivity|left; reflexivity].
-      intros x Nx. exact (rframe_blocks a _ _ _ _ _ R1 x Nx). }
+    assert (RA1 : ragrees te0 st rho1).
+    { eapply ragrees_frame with (ws := ws); [exact R| |exact M|intros; left; reflexivity].
+      intros x Nx. apply (rframe_blocks a _ _ _ _ _ R1 x). intro I. apply Nx, Sub, I. }
     destruct (IH _ _ _ _ _ RA1 U1 R2) as (S2 & U2).
     rewrite S1, S2. split; [reflexivity|exact U2].
 Qed.
-Lemma fiter_sim x a te st te1 st1 r1 :
-  sim_blk a -> tblock a ((x, TMark) :: te) st = Some (te1, st1, r1, true) -> wf te st ->
-  disjoint_known (x :: writes_block a) te = true -> tmem x safe_name_references = false ->
-  forall k i orc rho rho' out orc', ragrees te st rho -> unshadowed rho ->
+Lemma fiter_sim x a te0 st te1 st1 r1 ws :
+  sim_blk a -> tblock a ((x, TMark) :: te0) st = Some (te1, st1, r1, true) -> wf te0 st ->
+  In x ws -> (forall y, In y (writes_block a) -> In y ws) ->
+  (forall y, In y ws -> tlookup y te0 = Some TMark \/ tlookup y te0 = None) -> tmem x safe_name_references = false ->
+  forall k i orc rho rho' out orc', ragrees te0 st rho -> unshadowed rho ->
     fiter x a k i orc rho = Some (rho', out, orc') -> fiter x r1 k i orc rho = Some (rho', out, orc') /\ unshadowed rho'.
 Proof.
-  intros Sa E W DK NS. induction k as [|k IH]; intros i orc rho rho' out orc' R U H; cbn in H |- *.
+  intros Sa E W Ix Sub M NS. induction k as [|k IH]; intros i orc rho rho' out orc' R U H; cbn in H |- *.
   - inversion H; subst. split; [reflexivity|exact U].
   - destruct (rblock a orc ((x, VInt i) :: rho)) as [[[rho1 o1] orc1]|] eqn:R1; [|discriminate].
     destruct (fiter x a k (i + 1) orc1 rho1) as [[[rho2 o2] orc2]|] eqn:R2; [|discriminate].
     injection H as <- <- <-.
-    assert (Rx : ragrees ((x, TMark) :: te) st ((x, VInt i) :: rho)) by (eapply ragrees_bind; [exact R|intros; reflexivity|exact I]).
+    assert (Rx : ragrees ((x, TMark) :: te0) st ((x, VInt i) :: rho)) by (eapply ragrees_bind; [exact R|intros; reflexivity|exact I]).
     destruct (Sa _ _ _ _ _ _ _ _ _ _ E (wf_cons_mark x _ _ W) Rx (unshadowed_cons _ _ _ U NS) R1) as (S1 & _ & U1).
-    assert (RA1 : ragrees te st rho1).
-    { eapply ragrees_after_block; [exact R|exact DK| |reflexivity|left; reflexivity].
-      intros y Ny. rewrite (rframe_blocks a _ _ _ _ _ R1 y); [|intro; apply Ny; right; assumption].
-      unfold lookup. apply tl_ne. intro; subst; apply Ny; left; reflexivity. }
+    assert (RA1 : ragrees te0 st rho1).
+    { eapply ragrees_frame with (ws := ws); [exact R| |exact M|intros; left; reflexivity].
+      intros y Ny. rewrite (rframe_blocks a _ _ _ _ _ R1 y); [|intro J; apply Ny, Sub, J].
+      unfold lookup. apply tl_ne. intro; subst; apply Ny, Ix. }
     destruct (IH _ _ _ _ _ _ RA1 U1 R2) as (S2 & U2).
     rewrite S1, S2. split; [reflexivity|exact U2].
 Qed.
@@ -756,71 +861,93 @@ Proof. unfold no_safe. rewrite forallb_forall. intros H I. apply negb_true_iff. 
 Lemma sim_all : forall s, sim_stmt s.
 Proof.
   apply stmt_ind'; try (intros; apply sim_simple; exact I).
-  - (* if *)
+  - (* if: each branch is parsed from the snapshot with a private store; what either writes is unknown afterwards *)
     intros a b Fa Fb te st te' st' res orc rho rho' out orc' H W R U Hr.
-    pose proof (tframe_all (SIf a b) _ _ _ _ _ _ H W) as (WF' & _ & CC & _ & _).
     pose proof (rframe_all (SIf a b) _ _ _ _ _ Hr) as FR.
     rewrite tstep_if in H.
     destruct (tblock a te st) as [[[[te1 st1] r1] f1]|] eqn:E1; [|discriminate].
-    destruct (tblock b te st1) as [[[[te2 st2] r2] f2]|] eqn:E2; [|discriminate].
-    injection H as <- <- <- HF. apply flags4 in HF. destruct HF as (-> & -> & DK & NS).
-    assert (RA' : ragrees (promote (promote te te1 []) te2 []) st2 rho').
-    { eapply ragrees_after_block with (ws := writes (SIf a b)); [exact R|exact DK|exact FR|exact CC|].
-      intro x. destruct (promote_lookup3 (promote te te1 []) te2 [] x) as [E|E]; [|tauto].
+    destruct (tblock b te st) as [[[[te2 st2] r2] f2]|] eqn:E2; [|discriminate].
+    injection H as <- <- <- HF. apply flags3 in HF. destruct HF as (-> & -> & NS).
+    assert (RA' : ragrees (forget (writes (SIf a b)) (promote (promote te te1 []) te2 [])) st rho').
+    { eapply ragrees_frame with (ws := writes (SIf a b)); [exact R|exact FR|intros x Ix; apply forget_in; exact Ix|].
+      intros x Nx. rewrite forget_notin by exact Nx.
+      destruct (promote_lookup3 (promote te te1 []) te2 [] x) as [E|E]; [|tauto].
       rewrite E. apply promote_lookup3. }
-    assert (DK2 : disjoint_known (writes_block a ++ writes_block b) te = true) by exact DK.
-    apply disjoint_known_app in DK2. destruct DK2 as [DKa DKb].
     rewrite rstep_if in Hr. destruct orc as [|[|k] orc1]; [discriminate| |].
-    + (* else branch *)
-      destruct (tframe_blocks a _ _ _ _ _ _ E1 W) as (_ & B1 & C1 & _ & _).
-      assert (W1 : wf te st1) by (eapply wf_mono; eassumption).
-      assert (R1 : ragrees te st1 rho).
-      { eapply ragrees_after_block; [exact R|exact DKa|reflexivity|exact C1|left; reflexivity]. }
-      destruct (sim_block b Fb _ _ _ _ _ _ _ _ _ _ E2 W1 R1 U Hr) as (S2 & _ & U2).
+    + destruct (sim_block b Fb _ _ _ _ _ _ _ _ _ _ E2 W R U Hr) as (S2 & _ & U2).
       split; [|split; assumption]. rewrite rblock_single, rstep_if. exact S2.
     + destruct (sim_block a Fa _ _ _ _ _ _ _ _ _ _ E1 W R U Hr) as (S1 & _ & U1).
       split; [|split; assumption]. rewrite rblock_single, rstep_if. exact S1.
   - (* while *)
     intros a Fa te st te' st' res orc rho rho' out orc' H W R U Hr.
-    pose proof (tframe_all (SWhile a) _ _ _ _ _ _ H W) as (WF' & _ & CC & _ & _).
     pose proof (rframe_all (SWhile a) _ _ _ _ _ Hr) as FR.
     rewrite tstep_while in H.
-    destruct (tblock a te st) as [[[[te1 st1] r1] f1]|] eqn:E1; [|discriminate].
-    injection H as <- <- <- HF. apply flags3 in HF. destruct HF as (-> & DK & NS).
-    assert (RA' : ragrees (promote te te1 []) st1 rho').
-    { eapply ragrees_after_block with (ws := writes (SWhile a)); [exact R|exact DK|exact FR|exact CC|]. intro x. apply promote_lookup3. }
-    assert (DK2 : disjoint_known (writes_block a) te = true) by exact DK.
+    set (te0 := forget (writes (SWhile a)) te) in *.
+    destruct (tblock a te0 st) as [[[[te1 st1] r1] f1]|] eqn:E1; [|discriminate].
+    injection H as <- <- <- HF. apply andb_true_iff in HF. destruct HF as (-> & NS).
+    assert (W0 : wf te0 st) by (apply wf_forget; exact W).
+    assert (R0 : ragrees te0 st rho) by (apply ragrees_forget; exact R).
+    assert (M0 : forall x, In x (writes (SWhile a)) -> tlookup x te0 = Some TMark \/ tlookup x te0 = None)
+      by (intros x Ix; apply forget_in; exact Ix).
+    assert (RA' : ragrees (promote te0 te1 []) st rho').
+    { eapply ragrees_frame with (ws := writes (SWhile a)); [exact R0|exact FR| |].
+      - intros x Ix. destruct (promote_lookup3 te0 te1 [] x) as [E|E]; [rewrite E; apply M0; exact Ix|exact E].
+      - intros x _. apply promote_lookup3. }
     rewrite rstep_while in Hr. destruct orc as [|k orc1]; [discriminate|].
-    destruct (witer_sim a _ _ _ _ _ (sim_block a Fa) E1 W DK2 _ _ _ _ _ _ R U Hr) as (S1 & U1).
+    destruct (witer_sim a _ _ _ _ _ _ (sim_block a Fa) E1 W0 (fun x I => I) M0 _ _ _ _ _ _ R0 U Hr) as (S1 & U1).
     split; [|split; assumption]. rewrite rblock_single, rstep_while. exact S1.
   - (* for *)
     intros x a Fa te st te' st' res orc rho rho' out orc' H W R U Hr.
-    pose proof (tframe_all (SFor x a) _ _ _ _ _ _ H W) as (WF' & _ & CC & _ & _).
     pose proof (rframe_all (SFor x a) _ _ _ _ _ Hr) as FR.
     rewrite tstep_for in H.
-    destruct (tblock a ((x, TMark) :: te) st) as [[[[te1 st1] r1] f1]|] eqn:E1; [|discriminate].
-    injection H as <- <- <- HF. apply flags3 in HF. destruct HF as (-> & DK & NS).
-    assert (RA' : ragrees (promote te te1 [x]) st1 rho').
-    { eapply ragrees_after_block with (ws := writes (SFor x a)); [exact R|exact DK|exact FR|exact CC|]. intro y. apply promote_lookup3. }
-    assert (DK2 : disjoint_known (x :: writes_block a) te = true) by exact DK.
-    assert (NS2 : no_safe (x :: writes_block a) = true) by exact NS.
+    set (te0 := forget (writes (SFor x a)) te) in *.
+    destruct (tblock a ((x, TMark) :: te0) st) as [[[[te1 st1] r1] f1]|] eqn:E1; [|discriminate].
+    injection H as <- <- <- HF. apply andb_true_iff in HF. destruct HF as (-> & NS).
+    assert (W0 : wf te0 st) by (apply wf_forget; exact W).
+    assert (R0 : ragrees te0 st rho) by (apply ragrees_forget; exact R).
+    assert (M0 : forall y, In y (writes (SFor x a)) -> tlookup y te0 = Some TMark \/ tlookup y te0 = None)
+      by (intros y Iy; apply forget_in; exact Iy).
+    assert (RA' : ragrees (promote te0 te1 [x]) st rho').
+    { eapply ragrees_frame with (ws := writes (SFor x a)); [exact R0|exact FR| |].
+      - intros y Iy. destruct (promote_lookup3 te0 te1 [x] y) as [E|E]; [rewrite E; apply M0; exact Iy|exact E].
+      - intros y _. apply promote_lookup3. }
     rewrite rstep_for in Hr. destruct orc as [|k orc1]; [discriminate|].
-    destruct (fiter_sim x a _ _ _ _ _ (sim_block a Fa) E1 W DK2 (no_safe_in _ x NS2 (or_introl eq_refl)) _ _ _ _ _ _ _ R U Hr) as (S1 & U1).
+    assert (Ix : In x (writes (SFor x a))) by (rewrite writes_for; left; reflexivity).
+    assert (Sub : forall y, In y (writes_block a) -> In y (writes (SFor x a))) by (intros y I; rewrite writes_for; right; exact I).
+    assert (NS2 : no_safe (writes (SFor x a)) = true) by exact NS.
+    destruct (fiter_sim x a _ _ _ _ _ _ (sim_block a Fa) E1 W0 Ix Sub M0 (no_safe_in _ x NS2 Ix) _ _ _ _ _ _ _ R0 U Hr) as (S1 & U1).
     split; [|split; assumption]. rewrite rblock_single, rstep_for. exact S1.
 Qed.
+Lemma sim_blocks b : sim_blk b.
+Proof. apply sim_block. apply Forall_forall. intros s _. apply sim_all. Qed.
+End WithVol2.
 
-(* ---------------- the theorem ---------------- *)
+Lemma wf_nil : wf [] [].
+Proof. split; [|split]; intros; cbn in *; discriminate. Qed.
+Lemma ragrees_nil : ragrees [] [] [].
+Proof. intro x. exact I. Qed.
+Lemma unshadowed_nil : unshadowed [].
+Proof. intros f _. reflexivity. Qed.
+
+(* ---------------- the theorems ---------------- *)
 Theorem env_fresh : forall p orc out,
   is_fresh p = true -> python_outputs p orc = Some out -> firmware_outputs p orc = Some out.
 Proof.
   intros p orc out F P. unfold is_fresh in F. unfold python_outputs in P. unfold firmware_outputs.
-  destruct (tblock p [] []) as [[[[te st] res] f]|] eqn:E; [|discriminate]. subst f.
+  destruct (tblock [] p [] []) as [[[[te st] res] f]|] eqn:E; [|discriminate]. subst f.
   destruct (rblock p orc []) as [[[rho' out'] orc']|] eqn:Rp; [|discriminate]. inversion P; subst out'.
-  assert (W : wf [] []) by (split; [|split]; intros; cbn in *; discriminate).
-  assert (R : ragrees [] [] []) by (intro x; exact I).
-  assert (U : unshadowed []) by (intros f _; reflexivity).
-  destruct (sim_block p (proj2 (Forall_forall _ _) (fun s _ => sim_all s)) _ _ _ _ _ _ _ _ _ _ E W R U Rp) as (S & _ & _).
+  destruct (sim_blocks p _ _ _ _ _ _ _ _ _ _ E wf_nil ragrees_nil unshadowed_nil Rp) as (S & _ & _).
   rewrite S. reflexivity.
+Qed.
+
+(* at every program point the execution reaches, what the constant environment knows is true of the run-time state:
+   the environment after a prefix of the script agrees with the state every execution of that prefix ends in *)
+Theorem env_agrees : forall p orc te st res rho out orc',
+  tblock [] p [] [] = Some (te, st, res, true) -> rblock p orc [] = Some (rho, out, orc') -> agrees (view st te) rho.
+Proof.
+  intros p orc te st res rho out orc' E Rp.
+  destruct (sim_blocks p _ _ _ _ _ _ _ _ _ _ E wf_nil ragrees_nil unshadowed_nil Rp) as (_ & RA & _).
+  apply ragrees_agrees. exact RA.
 Qed.
 
 (* the hypotheses are satisfiable by a program with a taken and a skipped branch, a loop, a tracked list *)
